@@ -236,11 +236,12 @@ def check_C02(ck):
             for _ in range(rng.randrange(1, 9)):
                 _, P = rng.choice(base_pts)
                 k = rng.choice(small_scal)[1]
-                if rng.randrange(2):
+                kind = rng.randrange(4)
+                if kind in (0, 2):
                     n = rng.choice([0, 1, 2, 4, 8, 21, 44, 121, 300, 70000, 100000])
-                    hist.append("bs:%s:%x:%x" % (g.J(P, g.lam(rng)), n, k))
+                    hist.append("%s:%s:%x:%x" % ("bs" if kind == 0 else "bsh", g.J(P, g.lam(rng)), n, k))
                 else:
-                    hist.append("sb:%x:%s" % (k, g.J(P, g.lam(rng))))
+                    hist.append("%s:%x:%s" % ("sb" if kind == 1 else "sbh", k, g.J(P, g.lam(rng))))
                 want.append(g.A(C.mul(P, k)))
             line = "%s wnafhist %s" % (tag, ";".join(hist))
             (impl, _), = ck.run([("wnaf-history", line)])
@@ -269,12 +270,18 @@ def check_C03(ck):
     cases = []
     for (P, Qp) in base:
         cases.append(("pairing/base", "pairing %s %s" % (g1.A(P), g2.A(Qp))))
+    for (P, Qp) in base[:2]:
+        cases.append(("pairing_with/g1-initiates", "pairwith1 %s %s" % (g1.A(P), g2.A(Qp))))
+        cases.append(("pairing_with/g2-initiates", "pairwith2 %s %s" % (g1.A(P), g2.A(Qp))))
+    nb = len(base)
     cases.append(("pairing/identity-left", "pairing inf %s" % g2.A(g2.gen)))
     cases.append(("pairing/identity-right", "pairing %s inf" % g1.A(g1.gen)))
     cases.append(("pairing/identity-both", "pairing inf inf"))
     res = ck.run(cases)
     one = O.show_f12(O.F12_ONE)
-    for c, (impl, _) in zip(cases[len(base):], res[len(base):]):
+    for i in range(2):
+        ck.expect(res[nb + 2 * i][0] == res[i][0] and res[nb + 2 * i + 1][0] == res[i][0], "same-value-either-side", cases[nb + 2 * i][1], res[nb + 2 * i][0], res[i][0], "pairing_with from G1 or G2 = Engine::pairing")
+    for c, (impl, _) in zip(cases[len(base) + 4:], res[len(base) + 4:]):
         ck.expect(impl == one, "identity->1", c[1], impl, one, "e(P,Q)=1 when P or Q is the identity")
     evals = [O.parse_f12(impl) if impl.count(",") == 11 else None for (impl, _) in res[:len(base)]]
     scal = [0, 1, 2, R - 1, R, R + 1, rng.randrange(R), rng.randrange(R), (1 << 255) | rng.randrange(1 << 255)]
@@ -481,6 +488,7 @@ def check_C05(ck):
                 cases.append(("enc/" + c, "%s %s %s" % (tag, "enc_c" if comp else "enc_u", g.A(P)))); exp.append(want)
                 cases.append(("roundtrip/" + c, "%s %s %s" % (tag, "dec_c" if comp else "dec_u", want))); exp.append(g.A(P))
                 cases.append(("ser_jac/" + c, "%s ser_jac %s %d" % (tag, g.J(P, g.lam(rng)), 1 if comp else 0))); exp.append(want)
+                cases.append(("into_(un)compressed/" + c, "%s %s %s" % (tag, "intocomp" if comp else "intouncomp", g.A(P)))); exp.append(want)
         res = ck.run(cases)
         for c, (impl, _), want in zip(cases, res, exp):
             ck.expect(impl == want, "zcash:" + c[0].split("/")[0], c[1], impl, want, "byte-for-byte ZCash format / round trip")
@@ -592,6 +600,16 @@ def check_C07(ck):
             outs.append(("h2c", "h2c %s xmd256 ro %s 51" % (tag, bytes(rng.randrange(256) for _ in range(5)).hex())))
             outs.append(("mul", "%s mul %s %x" % (tag, g.J(g.sub_pt(rng), g.lam(rng)), rng.randrange(1 << 256))))
             outs.append(("add", "%s add %s %s" % (tag, g.J(g.sub_pt(rng), g.lam(rng)), g.J(g.sub_pt(rng), g.lam(rng)))))
+        rnd = [("random", "%s random %x" % (tag, rng.randrange(1 << 128))) for _ in range(4)]
+        for c, (impl, _) in zip(rnd, ck.run(rnd, gate=False)):
+            try:
+                P = g.pa(impl)
+                ok = P is not None and C.on_curve(P) and C.mul(P, R) is None
+            except Exception:
+                ok = False
+            ck.expect(ok, "invariant:random", c[1], impl, "non-identity subgroup point", "random() returns a subgroup member")
+        zc = ck.run([("zero", "%s jaczero" % tag), ("zero", "%s affzero" % tag), ("zero", "%s jaciszero %s" % (tag, g.J(None))), ("zero", "%s affiszero inf" % tag)])
+        ck.expect(zc[1][0] == "inf" and zc[2][0] == "true" and zc[3][0] == "true", "identity-constructors", "zero()", str([z[0] for z in zc]), "identity", "zero() is the identity")
         ores = ck.run(outs)
         for c, (impl, _) in zip(outs, ores):
             try:
@@ -678,6 +696,16 @@ def check_C08(ck):
             cases.append(("repr%d/is_odd" % nl, "repr %d is_odd %x" % (nl, a))); exp.append("true" if a & 1 else "false")
             cases.append(("repr%d/is_zero" % nl, "repr %d is_zero %x" % (nl, a))); exp.append("true" if a == 0 else "false")
         cases.append(("repr%d/from_u64" % nl, "repr %d from_u64 %x" % (nl, (1 << 64) - 1))); exp.append("%x" % ((1 << 64) - 1))
+        for a in vals[:10]:
+            be = a.to_bytes(8 * nl, "big"); le = a.to_bytes(8 * nl, "little")
+            cases.append(("repr%d/write_be" % nl, "repr %d write_be %x" % (nl, a))); exp.append(be.hex())
+            cases.append(("repr%d/write_le" % nl, "repr %d write_le %x" % (nl, a))); exp.append(le.hex())
+            cases.append(("repr%d/read_be" % nl, "repr %d read_be %s" % (nl, (be + b"\x07").hex()))); exp.append("%x" % a)
+            cases.append(("repr%d/read_le" % nl, "repr %d read_le %s" % (nl, le.hex()))); exp.append("%x" % a)
+        cases.append(("repr%d/read_be-short" % nl, "repr %d read_be %s" % (nl, bytes(8 * nl - 1).hex()))); exp.append("ERR:eof")
+        gen = 2 if p == Q else 7
+        s2 = 1 if p == Q else 32
+        cases.append(("%s/consts" % f, "consts %s" % f)); exp.append("%x %d %d %d %x %x" % (p, p.bit_length(), p.bit_length() - 1, s2, gen, pow(gen, (p - 1) >> s2, p)))
     res = ck.run(cases)
     for c, (impl, _), want in zip(cases, res, exp):
         if want is not None:
